@@ -664,6 +664,31 @@ def rule_cursor(rep, d, fns):
         # ---- tail: for every remainder v the bytes read are exactly cursor[0..v-1]
         if guard is not None and cursor is not None and nvar is not None:
             rest = top[li + 1:]
+            # the tail handed to a helper of the library together with the cursor and the remaining count (`mixer::mix_tail(h, data, len)`): the
+            # helper's body is the tail, with its own names for the two
+            tail_via = None
+            for hops_ in range(3):
+                moved = False
+                for s_ in rest:
+                    for c_ in ir.walk_expr(s_):
+                        if c_.get("kind") not in ("CallExpr", "CXXMemberCallExpr") or not ir.ekids(c_):
+                            continue
+                        args_ = ir.ekids(c_)[1:]
+                        ai = [i_ for i_, a_ in enumerate(args_) if norm.uncast(ir.sx(a_)) == ("ref", cursor)]
+                        ni = [i_ for i_, a_ in enumerate(args_) if norm.uncast(ir.sx(a_)) == ("ref", nvar)]
+                        cal_ = ir.strip(ir.ekids(c_)[0])
+                        tg_ = d.by_id.get(cal_.get("referencedMemberDecl")) if cal_.get("kind") == "MemberExpr" else d.by_id.get((cal_.get("referencedDecl") or {}).get("id"))
+                        if ai and ni and tg_ is not None and ir.body(tg_) is not None and "/xtl/" in (d.where(tg_) or "") and len(ir.params(tg_)) == len(args_):
+                            rest = ir.kids(ir.body(tg_))
+                            cursor = ir.params(tg_)[ai[0]].get("name")
+                            nvar = ir.params(tg_)[ni[0]].get("name")
+                            tail_via = tg_.get("name")
+                            moved = True
+                            break
+                    if moved:
+                        break
+                if not moved:
+                    break
             w_ = flow.Walker()
             paths = list(w_.block(rest))
             for v in range(guard):
